@@ -33,6 +33,12 @@ def gen_input(rng, cls):
     elif cls == "long":
         n, L = rng.randint(3, 8), rng.choice([499, 500, 501, 700, 1100, 1600])
         seqs = gen.family(rng, n, L, alpha, "random", 0.1, 0.01, 8)
+    elif cls == "equal_len":
+        # all sequences of one length: pair distances of equal-length sequences depend on the argument order, so the matrix cell that
+        # is written last decides (UPGMA path, < 100 sequences)
+        n, L = rng.randint(30, 99), rng.choice([60, 150, 300])
+        root = gen.rand_seq(rng, L, alpha)
+        seqs = [gen.mutate(rng, gen.mutate(rng, root, alpha, 0.15, 0.03, 2), alpha, 0.05, 0.0)[:L].ljust(L, alpha[0]) for _ in range(n)]
     elif cls == "mixed":
         n, L = rng.choice([100, 120]), rng.choice([505, 520])
         seqs = gen.family(rng, n, L, alpha, "balanced", 0.1, 0.01, 4)
@@ -247,18 +253,18 @@ def run(ck, tier):
     if not os.path.exists(ARCHER):
         raise common.Inconclusive("libarcher.so missing")
     sc = getattr(ck, "scale", 1.0)
-    classes = ["kmeans", "kmeans_dups", "wide", "long", "mixed", "small"]
+    classes = ["kmeans", "kmeans_dups", "wide", "long", "mixed", "small", "equal_len"]
     if tier == "quick":
-        plan = ["kmeans", "kmeans", "kmeans_dups", "kmeans_dups", "wide", "wide", "long", "long", "long", "mixed", "small", "small"]
+        plan = ["kmeans", "kmeans", "kmeans_dups", "kmeans_dups", "wide", "wide", "long", "long", "long", "mixed", "small", "equal_len", "equal_len"]
         ntsan = 10
     else:
-        plan = [classes[i % 6] for i in range(150)]
+        plan = [classes[i % 7] for i in range(154)]
         ntsan = 120
     plan = plan * max(1, int(sc)) if sc >= 2 else plan
     jobs = list(enumerate(plan))
     common.pmap(lambda j: differential_case(ck, builds, j[0], j[1], tier), jobs, workers=6)
-    tcls = ["kmeans", "kmeans_dups", "wide", "long", "mixed"]
-    common.pmap(lambda i: tsan_case(ck, tpaths, 5000 + i, tcls[i % 5]), range(int(ntsan * max(1.0, sc))), workers=6)
+    tcls = ["kmeans", "kmeans_dups", "wide", "long", "mixed", "equal_len"]
+    common.pmap(lambda i: tsan_case(ck, tpaths, 5000 + i, tcls[i % 6]), range(int(ntsan * max(1.0, sc))), workers=6)
     ck.rule = ("inputs reaching every parallel region (>= 100 sequences: distance matrix omp-for and k-means restart tasks; duplicates: k-means tie fallback; wide "
                "trees: tree-parallel merges; >= 500 columns: Hirschberg halves as tasks); each is run at 1 thread and then at thread counts from "
                "{2,3,4,7,8,16,32,64} x repeats with seeded injected delays, affinity masks of 1/2/16 cores and nested parallelism on/off, in the no-OpenMP, "
